@@ -505,6 +505,10 @@ func c09Alphabet(prefix []c09Entry) []c09Entry {
 		{Name: "put(d/x,1)", Writes: []c09Write{{"d/x", "1", false}}},
 		{Name: "del(d/x)", Writes: []c09Write{{"d/x", "", true}}},
 		{Name: "put(b,'')", Writes: []c09Write{{"b", "", false}}},
+		// a write two levels below a listed prefix: makes the folder d/s/ appear in (disappear
+		// from) a listing of d/ without touching any direct child of d/
+		{Name: "put(d/s/x,1)", Writes: []c09Write{{"d/s/x", "1", false}}},
+		{Name: "del(d/s/x)", Writes: []c09Write{{"d/s/x", "", true}}},
 	}
 	out := append([]c09Entry{}, plain...)
 	for s := pos - 1; s >= 0; s-- {
